@@ -67,6 +67,39 @@ CHECKS = {
              "Closed under the global context.",
         technique="Coq proof (pointwise laws over Q by case analysis and list induction) + exact model/implementation correspondence on reproduced RNG draws by vm_compute",
         category="proof"),
+    "C01": dict(
+        text="Coq theorems for ALL GF(2) matrices (bit-mask vectors): m.G and x.H^T are linear; two additive maps agreeing on the unit vectors "
+             "agree everywhere (linear extension); soundness of the checkers code_pair_ok (k rows, injective on k-bit messages, and a word has "
+             "an all-zero syndrome IFF it is a codeword) and rowspace_dim_ok (row space of H has dimension exactly n-k) for all matrices and "
+             "certificates. The kernel evaluates these checkers on the generator/check matrices published by every code object of the "
+             "catalogue (all families x parameters x information sets x random generators x LDPC incl. rank-deficient), so each instance "
+             "is decided by a theorem, and the model m.G / x.H^T is compared with encoder(m) for all 2^k messages and calculate_syndrome on "
+             "perturbed codewords.",
+        design="6/C01",
+        note="Trusted: Coq kernel + vm_compute; certificates (right inverse, kernel decomposition, row-space basis) are computed by the untrusted "
+             "harness and only checked; the per-family constructions are not transcribed (the published matrices are what is verified); bounded by "
+             "the catalogue (n <= 31 quick, 64 thorough). Closed under the global context.",
+        technique="Coq proof (linear-extension lemma over bit masks, checker soundness for all matrices) + kernel-evaluated verified checkers on published matrices + model/implementation correspondence by vm_compute"),
+    "C03": dict(
+        text="Coq theorems: soundness of minimum-distance enumeration (every non-zero message of a k-dimensional code gives weight >= d; distinct "
+             "codewords differ in >= d positions), closure under cyclic shifts from a check on the generator rows (shift additive), the code is "
+             "exactly the set of multiples of g (rows divisible by g; every X^i g a codeword; lifted by linearity) and g | X^n+1 (Euclidean "
+             "division of C18), Hamming sphere-packing equality for every mu, Golay by computation. Kernel evaluates these on every catalogue "
+             "object (distance for k <= 12 quick / 16 thorough, exactness by refuting d+1), reference distances by enumeration / MacWilliams.",
+        design="6/C03",
+        note="Trusted: Coq kernel + vm_compute; distances for k above the enumeration bound are decided by the Python reference only; the general BCH "
+             "bound and RM distance formula are not formalised (every catalogue instance is enumerated). Closed under the global context.",
+        technique="Coq proof (checker soundness, polynomial divisibility, linear extension) + kernel enumeration on published matrices (bound 2^k stated) + reference enumeration"),
+    "C04": dict(
+        text="Coq theorems: a right inverse checked on the k unit messages is a right inverse on all 2^k messages (and the encoder injective); "
+             "every codeword has zero syndrome; projection onto ANY duplicate-free information set (left, right, arbitrary, permuted) undoes "
+             "systematic scatter for every message and parity content; the blockwise wrapper is a round trip for every per-block round trip and "
+             "every number of blocks, scales the length by exactly n/k, and rejects non-multiples. Kernel evaluates the inverse/syndrome checkers "
+             "on the published G, R, H of every catalogue object; implementation round trips over all messages x 1-D/(B,k)/(B1,B2,k)/(B,b*k).",
+        design="6/C04",
+        note="Trusted: Coq kernel + vm_compute; Base/Layout.v models apply_blockwise on nested lists; Hamming / Reed-Muller own inverses are checked "
+             "on the implementation here (their decoder theorems are C02). Closed under the global context.",
+        technique="Coq proof (linear extension, list induction for layout and scatter/gather) + kernel-evaluated checkers on published matrices + exhaustive round-trip correspondence"),
 }
 NOT_YET = {}
 
